@@ -7,9 +7,9 @@ import subprocess
 import sys
 import time
 
-WT = "/tmp/wtm"
+WT = os.environ.get("DETECT_WT", "/tmp/wtm")
 PY = "/venv/bin/python"
-OUT = "/verif/seeded/detection.json"
+OUT = os.environ.get("DETECT_OUT", "/verif/seeded/detection.json")
 # which checks to run for a change seeded against property X (its own first)
 EXTRA = {"C07": ["C02"], "C05": ["C06", "C15"], "C10": ["C11", "C04"], "C16": ["C06"], "C06": ["C16", "C04", "C12"],
          "C19": ["C15"], "C01": ["C04", "C05"], "C02": ["C05"]}
@@ -46,6 +46,9 @@ def main():
         key = "%s:%d" % (pid, n)
         res.setdefault(key, {})
         for chk in [pid] + EXTRA.get(pid, []):
+            if chk != pid and os.environ.get("DETECT_OWN_FIRST") and \
+                    res[key].get(pid, {}).get("exit") == 1:
+                continue          # own check already reports it: extras only on a miss
             t0 = time.time()
             rc, out = sh("%s -m vf.check %s --tier quick" % (PY, chk), cwd="/verif", env=env)
             viol = [l for l in out.splitlines() if l.startswith("VIOLATION")]
